@@ -113,7 +113,19 @@ def _field_builders():
         "st_nested": lambda: with_st(Outer.Inner), "st_deep": lambda: with_st(Outer.Deep.Leaf),
         "st_list_nested": lambda: with_st(__import__("typing").List[Outer.Inner]),
         "st_dict_deep": lambda: with_st(__import__("typing").Dict[str, Outer.Deep.Leaf]),
+        # region of the open finding F52: a function-local class inside a typing construct
+        "list_local_ct": lambda: cc.ListField(LT["Endpoint"]), "list_nested_local_ct": lambda: cc.ListField(LT["Hook"]),
+        "dict_str_local": lambda: cc.DictField(cc.StringField(), with_st(LT["Local"])),
+        "st_optional_local": lambda: with_st(__import__("typing").Optional[LT["Local"]]),
     }
+
+
+FIELD_KINDS_F52 = ["list_local_ct", "list_nested_local_ct", "dict_str_local", "st_optional_local"]
+ANNS_F52 = ["Optional[Local]", "List[Endpoint]", "Dict[str, LocalItem]"]
+POOL_F52 = [
+    "def f(cfg, a: int, b: Optional[Local] = None): pass",
+    "def f(cfg, a) -> List[Endpoint]: pass",
+]
 
 
 FIELD_KINDS = ["int", "str", "float", "bool", "bytes", "field", "number_int", "number_float", "port", "ipv4", "ipv4net",
@@ -392,6 +404,7 @@ def impl(c):
         c["_exp_attrs"] = [k for k, f in schema._fields.items() if not isinstance(f, InstanceMethodField)]
         c["_exp_init"] = [k for k, f in schema._fields.items() if not isinstance(f, (InstanceMethodField, VirtualField))]
         c["_exp_methods"] = [(k, sig_of(f.method)) for k, f in schema._fields.items() if isinstance(f, InstanceMethodField)]
+        c["_f52"] = "<locals>" in repr(c["_desc"])
         c["_noself"] = [k for k, f in schema._fields.items() if isinstance(f, InstanceMethodField)
                         and not inspect.getfullargspec(f.method).args]
         cfg = None
@@ -492,6 +505,9 @@ def oracle(c, obs):
 
 
 def classify(c, msg):
+    # F52: a function-local class inside a typing construct is rendered through str() -> "<locals>"
+    if c.get("_f52") and (msg == "the generated stub is not valid Python" or msg == "model/implementation disagreement"):
+        return "F52"
     # F45: an instance method whose function has no plain leading positional parameter
     if c.get("_noself") and ("parameter names/kinds differ" in msg):
         k = msg.split()[1].rstrip(":")
@@ -530,6 +546,8 @@ def tags(c, obs):
     t.add("fields=%d" % min(len(c["fields"]) - nm, 4))
     if c.get("_noself"):
         t.add("F45-region")
+    if c.get("_f52"):
+        t.add("F52-region")
     return t
 
 
@@ -621,6 +639,8 @@ MKEYS = ["m0", "m1", "m2", "run", "say_hello", "get", "__call__", "update"]
 
 def rsig(rng, f45=False):
     def ann(p=0.5):
+        if rng.random() < 0.008:
+            return ": " + rng.choice(ANNS_F52)
         return (": " + rng.choice(ANNS)) if rng.random() < p else ""
     params = []
     if not f45:
@@ -665,6 +685,8 @@ def rfields(rng, depth=0, allow_methods=True):
             r = rng.random()
             if r < 0.03:
                 src = rng.choice(POOL_F45) if rng.random() < 0.5 else rsig(rng, f45=True)
+            elif r < 0.045:
+                src = rng.choice(POOL_F52)
             elif r < 0.35:
                 src = rng.choice(POOL)
             else:
@@ -678,6 +700,8 @@ def rfields(rng, depth=0, allow_methods=True):
                 fields.append([k, ["ct", rng.choice(["CT", "Item", "Endpoint"])]])
             elif r < 0.30:
                 fields.append([k, ["f", rng.choice(["virtual", "virtual_rw"])]])
+            elif r < 0.31:
+                fields.append([k, ["f", rng.choice(FIELD_KINDS_F52)]])
             else:
                 fields.append([k, ["f", rng.choice(FIELD_KINDS)]])
     return fields
@@ -698,8 +722,10 @@ def generate(rng, tier):
     cases.append(case([["ct", ["ct", "CT"]]]))
     for src in POOL:                                           # every pool signature alone
         cases.append(case([["m", ["method", src]]]))
-    for src in POOL_F45:
+    for src in POOL_F45 + POOL_F52:
         cases.append(case([["m", ["method", src]]]))
+    for kind in FIELD_KINDS_F52:
+        cases.append(case([["a", ["f", "int"]], ["x", ["f", kind]]]))
     for src, dom in POOL_OUT:
         cases.append(case([["m", ["method", src]]], domain=dom))
     # order of virtual / persistent / method fields
